@@ -14,6 +14,8 @@
 import Model.Stream
 import Proofs.Stream
 import Proofs.StreamAccept
+import Proofs.FlowTieStream
+import Proofs.FlowTieImport
 
 namespace Jl.C07
 open Jl Jl.Scanner Jl.Stream
@@ -138,5 +140,28 @@ theorem five_line_run (reader : List ReadEv) (hcalm : Calm 100 reader)
       .ok ⟨some .unsupportedImport, [(true, none), (false, some .unsupportedImport)],
         [l1 ++ [0x0A]]⟩ :=
   ⟨tolerant_run reader hcalm hd, default_run reader hcalm hd⟩
+
+
+/-! ### The loop of the model is `streamer.go` (Proofs/FlowTieStream, Proofs/FlowTieImport) -/
+
+/-- `Stream`'s loop as written today makes the four processor calls `Stream.loop` records —
+    `(false, e)` for a refused line, `(true, nil)` for a row, `(true, e)` for a failed export,
+    `(false, e)` for the scanner's error after the loop, whose result is `Stream`'s —; the two
+    processors are `Proc.default` and `Proc.tolerant`; the scanner is built with the buffer sizes
+    of `Gen.Sites` and no `Split` call. -/
+theorem stream_model_is_the_source :
+    (∃ onRowErr onRow onExportErr after rowWithErr w,
+      Gen.flowTable.stream = .loop onRowErr onRow onExportErr (.errHandover after)
+      ∧ Gen.flowTable.getRow = .scannerErrThenParse rowWithErr w
+      ∧ onRowErr.recorded rowWithErr true = (false, true)
+      ∧ onRow.recorded rowWithErr false = (true, false)
+      ∧ onExportErr.recorded rowWithErr false = (true, true)
+      ∧ after.recorded rowWithErr false = (false, true)) ∧
+    (FlowTie.procG Gen.flowTable.defaultProcessor = some .default
+      ∧ FlowTie.procG Gen.flowTable.noFailureProcessor = some .tolerant) ∧
+    Gen.flowTable.newImporter = .scanner 0 Gen.initialBufferSize Gen.maximumBufferSize :=
+  ⟨FlowTie.stream_calls_as_modelled,
+   ⟨FlowTie.processors_as_modelled.1, FlowTie.processors_as_modelled.2.1⟩,
+   FlowTie.scanner_sizes.1⟩
 
 end Jl.C07
